@@ -849,3 +849,24 @@ func (vc *VC) SelectThrough(arr, idx *Term) *Term {
 	}
 	return Select(arr, idx)
 }
+
+// SliceAt reads element i of a slice view (backing array arr, offset off). With a literal zero offset
+// this is a plain select; otherwise an uninterpreted accessor sl.at(arr, off, i) defined by
+// sl.at(arr, off, i) = arr[off+i], so that quantified facts about slice elements can be triggered on
+// the index term itself (arithmetic inside triggers does not match reliably).
+func (vc *VC) SliceAt(arr, off, i *Term) *Term {
+	if v, ok := off.IntVal(); ok && v.Sign() == 0 {
+		return Select(arr, i)
+	}
+	es := arr.Sort.ElemSort()
+	name := "sl.at." + sanitize(string(es))
+	if !vc.declared[name] {
+		vc.declare(name, fmt.Sprintf("(declare-fun %s (%s %s %s) %s)", name, arr.Sort, off.Sort, i.Sort, es))
+		plus := "+"
+		if off.Sort == SBV64 {
+			plus = "bvadd"
+		}
+		vc.decls = append(vc.decls, fmt.Sprintf("(assert (forall ((a %s) (o %s) (i %s)) (! (= (%s a o i) (select a (%s o i))) :pattern ((%s a o i)))))", arr.Sort, off.Sort, i.Sort, name, plus, name))
+	}
+	return App(name, es, arr, off, i)
+}
